@@ -1,8 +1,11 @@
-(* C18 - RCU lists (urcu/rculist.h, urcu/rcuhlist.h): publication ordering on x86-TSO for add, add_tail, del, replace - a reader never stands on a node whose forward pointer is not yet initialised in memory, for every schedule of updater stores, flush delays and reader steps
+(* C18 - RCU lists (urcu/rculist.h, urcu/rcuhlist.h): publication ordering on x86-TSO for add, add_tail, del, replace, and the traversal guarantees (order, exactly once, resident nodes visited, visited nodes were present, removed nodes never reached, termination) for every interleaving of visible updater stores and reader steps
    Property theorems only: each is the full statement, closed by `exact`, followed by Print Assumptions. *)
 Require Import Coq.Lists.List.
 Require Import Coq.NArith.NArith.
+Require Import Coq.QArith.QArith.
 Require Import Urcu.RcuList.RcuList.
+Require Import Urcu.RcuList.RcuTravL.
+Require Import Urcu.RcuList.RcuTrav.
 Import ListNotations.
 
 (* for every updater program (add at head, add at tail, delete, replace with distinct nodes) and every choice sequence: each reader's cursor is the head or a node whose next field is initialised in memory, so a traversal only ever follows initialised pointers *)
@@ -19,4 +22,48 @@ Theorem C18_invariant_step :
     forall (s : st) (c : choice), Inv s -> Inv (exec c s).
 Proof. exact (@Urcu.RcuList.RcuList.Inv_exec). Qed.
 Print Assumptions C18_invariant_step.
+
+(* memory level, every interleaving of visible updater stores (initialise a fresh node, publish at head / tail, unlink, replace) and reader steps, any number of traversals: the visited nodes are strictly increasing in the immutable key order in which the list itself is sorted at every moment - list order, each node at most once *)
+Theorem C18_traversal_in_list_order_exactly_once :
+    forall (g0 : gst) (t : tst),
+    WF g0 ->
+    treach (tinit g0) t ->
+    sorted (gkey (tg t)) (rV (tr t)) /\ sorted (gkey (tg t)) (gL (tg t)) /\ NoDup (rV (tr t)).
+Proof. exact (@Urcu.RcuList.RcuTrav.trav_in_list_order). Qed.
+Print Assumptions C18_traversal_in_list_order_exactly_once.
+
+(* when a traversal has ended, every node that was in the list at its start and at every store since has been visited *)
+Theorem C18_traversal_visits_resident_nodes :
+    forall (g0 : gst) (t : tst),
+    WF g0 -> treach (tinit g0) t -> tfin t = true -> forall x : N, In x (rR (tr t)) -> In x (rV (tr t)).
+Proof. exact (@Urcu.RcuList.RcuTrav.trav_resident_visited). Qed.
+Print Assumptions C18_traversal_visits_resident_nodes.
+
+(* a traversal visits only nodes that were in the list at some moment since it began *)
+Theorem C18_traversal_visited_was_present :
+    forall (g0 : gst) (t : tst),
+    WF g0 -> treach (tinit g0) t -> forall x : N, In x (rV (tr t)) -> In x (rW (tr t)).
+Proof. exact (@Urcu.RcuList.RcuTrav.trav_visited_was_present). Qed.
+Print Assumptions C18_traversal_visited_was_present.
+
+(* a node unlinked before a traversal began is never visited by it (the premise of reclamation after a grace period) *)
+Theorem C18_traversal_never_visits_removed :
+    forall (g0 : gst) (t : tst),
+    WF g0 ->
+    treach (tinit g0) t -> forall x : N, In x (rE0 (tr t)) -> ~ In x (rL0 (tr t)) -> ~ In x (rV (tr t)).
+Proof. exact (@Urcu.RcuList.RcuTrav.trav_never_visits_removed). Qed.
+Print Assumptions C18_traversal_never_visits_removed.
+
+(* each reader step strictly decreases the number of published nodes not yet visited: a traversal ends within that many steps whenever the updater makes no store visible *)
+Theorem C18_traversal_progress :
+    forall (g : gst) (r : rst),
+    WF g -> RInv g r -> gm g (rc r) <> HEAD -> (unvisited g (rnext g r) < unvisited g r)%nat.
+Proof. exact (@Urcu.RcuList.RcuTrav.read_step_progress). Qed.
+Print Assumptions C18_traversal_progress.
+
+(* each of the five store shapes keeps: the path from the head spells the list, the list is key-sorted, every pointer of every published node (live or removed) leads forward in key order *)
+Theorem C18_store_shapes_preserve_wellformedness :
+    forall (g : gst) (a v : N) (g' : gst), WF g -> mstep g a v g' -> WF g'.
+Proof. exact (@Urcu.RcuList.RcuTrav.WF_mstep). Qed.
+Print Assumptions C18_store_shapes_preserve_wellformedness.
 
